@@ -23,6 +23,9 @@ import time
 import traceback
 
 ROOT = os.path.dirname(os.path.dirname(os.path.abspath(__file__)))
+# where evidence/ and replays/ are written; redirected when a check is run against a scratch tree (seed testing), so
+# that the evidence of the real tree is not overwritten
+OUT = os.environ.get("PYVC_OUT_DIR") or ROOT
 sys.path.insert(0, ROOT)
 
 from pyvc import api, core, findings, interp as interp_mod  # noqa: E402
@@ -337,7 +340,14 @@ def main(argv=None):
         c = contracts[i]
         old, new, expect = c.canaries[k]
         failed = sorted({v["obligation"] for v in r["violations"]})
-        ok = (not failed and not r["undecided"] and not r["error"]) if expect is None else any(expect in f for f in failed)
+        if expect == "!verify":
+            # quantified obligations: the solvers refute by `unknown` rather than `sat`; the mutant must at least stop
+            # verifying (a failed or an undecided obligation), which makes the check exit non-zero
+            ok = (bool(failed) or bool(r["undecided"])) and not r["error"] and not r["unsupported"]
+        elif expect is None:
+            ok = not failed and not r["undecided"] and not r["error"]
+        else:
+            ok = any(expect in f for f in failed)
         canary_report.append({"contract": c.name, "edit": [old, new], "expect": expect, "failed": failed,
                               "unsupported": r["unsupported"], "ok": bool(ok)})
         if not ok:
@@ -346,7 +356,7 @@ def main(argv=None):
                 (r["error"] or "")[:300]))
 
     # replay violations on the real code
-    rdir = os.path.join(ROOT, "replays", prop)
+    rdir = os.path.join(OUT, "replays", prop)
     os.makedirs(rdir, exist_ok=True)
     for old in os.listdir(rdir):
         if old.endswith(".json"):
@@ -389,7 +399,7 @@ def main(argv=None):
         rec["info"] = v.get("info")
         path = os.path.join("replays", prop, slug(v["obligation"]) + (".%d" % len(vio_out)) + ".json")
         rec["cmd"] = ".venv/bin/python -m pyvc.check %s --replay %s" % (prop, path)
-        with open(os.path.join(ROOT, path), "w") as f:
+        with open(os.path.join(OUT, path), "w") as f:
             json.dump(rec, f, indent=1, default=repr)
         tail = "" if rec["found_input"] else " no-failing-input-found"
         lines.append("VIOLATION property=%s replay=%s obligation=%s%s" % (prop, path, v["obligation"], tail))
@@ -420,6 +430,10 @@ def main(argv=None):
         level = "exploration"
     else:
         level = "other"
+    if level == "proof" and getattr(mod, "MANIFEST", {}).get("category") == "exploration":
+        # a module that claims only exploration may still discharge a few complete finite obligations (C58's transition
+        # table); the record stays at the claimed level
+        level = "exploration"
     samples = [{"obligation": o["name"], "backend": o["backend"], "verdict": o["verdict"], "seconds": o["seconds"]}
                for o in obligations[:: max(1, len(obligations) // 8)][:8]]
     for b in bounded_stats:
@@ -468,8 +482,8 @@ def main(argv=None):
         "wall_s": round(time.time() - t0, 3),
         "violations": len(vio_out),
     }
-    os.makedirs(os.path.join(ROOT, "evidence"), exist_ok=True)
-    with open(os.path.join(ROOT, "evidence", "%s.json" % prop), "w") as f:
+    os.makedirs(os.path.join(OUT, "evidence"), exist_ok=True)
+    with open(os.path.join(OUT, "evidence", "%s.json" % prop), "w") as f:
         json.dump(ev, f, indent=1, default=repr)
 
     for l in known_lines:
